@@ -369,3 +369,5 @@ def plan(tier):
         "budget_s": 200 if quick else 1800,
         "collect_all": True,
     }
+
+RULE += (' Also recv_edit: an entity serialised once and then edited through its own property setters serialises like an unserialised twin given the same edits; an empty status text.')
